@@ -39,7 +39,7 @@ func VerifH_C20_L1_retry() {
 	h := &verifHandler{max: int(vz.IntRange("maxRequeues", -1, 5))}
 	fails := vz.Bool("syncFails")
 	if fails {
-		h.err = fakes.ErrorOfKind(vz.Choice("errKind", 3), "x")
+		h.err = fakes.ErrorOfKind([]int{0, 1, 2, 6, 7}[vz.Choice("errKind", 5)], "x")
 	}
 	c := NewController(h, q)
 	cont := c.work(context.Background())
